@@ -1731,3 +1731,7 @@ mut("C05", "rewriter-reapplied-while-gate-holds", "R05-",
             _token = expand_one_env(sh, &_token);
         }
         buff.push((idx, _token));"""))
+
+mut("C16", "operator-after-quote-glued", "R16-5|parsers::parser_line::parse_line|operator-after-quote",
+    "a ; or & right after a closing quote joins the quoted word again",
+    (P, """        if semi_ok && (c == ';' || c == '&') {""", """        if semi_ok && (c == ';' || c == '&') && false {"""))
